@@ -8,7 +8,7 @@ from concurrent.futures import ProcessPoolExecutor
 from .common import Report, jhash
 from .tlc import run_tlc, require_ok, TlcFailure
 
-ALL_ACTIONS = ["AddSession", "Start", "Loop", "Proc", "ProcEnd", "Decide", "SchedReturn", "Update", "ApplyWith", "Finish"]
+ALL_ACTIONS = ["AddSession", "Start", "Loop", "Proc", "ProcEnd", "Decide", "SchedReturn", "UpdateAt", "ApplyWith", "Finish"]
 
 
 # ------------------------------------------------------------------ behaviour generation
